@@ -180,6 +180,24 @@ pub fn c06_check(pre: &Db, receipt: &TransactionReceipt, fctx: &FeeCtx) -> Resul
         if !epoch_change && grew != &to_p + &to_v {
             return fail("rewards_vault_delta", format!("validator rewards vault grew by {} but to_proposer + to_validator_set = {}", grew, &to_p + &to_v));
         }
+        // the proposer's share is booked on the current leader (none: everything goes to the pool)
+        if !epoch_change {
+            let cm = CONSENSUS_MANAGER.as_node_id();
+            let ix = ConsensusManagerField::ValidatorRewards.field_index();
+            let sum = |p: Option<ConsensusManagerValidatorRewardsFieldPayload>| -> BigInt {
+                p.map(|p| p.fully_update_and_into_latest_version().proposer_rewards.values().fold(BigInt::from(0), |a, d| a + attos(*d))).unwrap_or(BigInt::from(0))
+            };
+            let before = sum(field(pre, cm, MAIN_BASE_PARTITION, ix));
+            let after = sum(post_field(pre, &c.state_updates, cm, MAIN_BASE_PARTITION, ix));
+            let leader = field::<ConsensusManagerStateFieldPayload>(pre, cm, MAIN_BASE_PARTITION, ConsensusManagerField::State.field_index())
+                .map(|p| p.fully_update_and_into_latest_version().current_leader.is_some())
+                .unwrap_or(false);
+            let booked = &after - &before;
+            let expected = if leader { to_p.clone() } else { BigInt::from(0) };
+            if booked != expected {
+                return fail("proposer_rewards_booking", format!("proposer rewards bookkeeping grew by {} but to_proposer is {} (current leader present: {})", booked, to_p, leader));
+            }
+        }
     }
     // burn event
     let mut burn_ev = BigInt::from(0);
